@@ -107,6 +107,15 @@ Example C16_args_nonvacuous :
   validate_args {| a_check := Some (CK_all, T_its); a_period := None; a_exit := None; a_istats := Some (SF_ext [110; 100; 106; 115; 111; 110]) |} = false.
 Proof. split; reflexivity. Qed.
 
+(* unreadable / unrecognisable input: an input shorter than one RDH0, or whose first RDH is not accepted, ends with status 1 -- non-zero --
+   whatever the options; conversely status 0 means the input was recognised and processed and the run ended with a report *)
+Theorem C16_unreadable_input_is_nonzero : forall ff c input, Nat.ltb (length input) 8 = true \/ recognised input = false ->
+  run_exit (run_check ff c input) = Some 1.
+Proof. exact unreadable_is_nonzero. Qed.
+Theorem C16_exit_zero_means_processed : forall ff c input, run_exit (run_check ff c input) = Some 0 ->
+  Nat.ltb (length input) 8 = false /\ recognised input = true /\ exists s sh, run_check ff c input = R_done s sh 0.
+Proof. exact exit_zero_means_processed. Qed.
+
 Print Assumptions C16_exit_table.
 Print Assumptions C16_fatal_is_reported.
 Print Assumptions C16_total_counts_messages.
@@ -124,3 +133,5 @@ Print Assumptions C16_check_run_exit_without_option.
 Print Assumptions C16_check_run_accounting.
 Print Assumptions C16_args_source_shape.
 Print Assumptions C16_invalid_combinations_rejected.
+Print Assumptions C16_unreadable_input_is_nonzero.
+Print Assumptions C16_exit_zero_means_processed.
